@@ -178,6 +178,15 @@ class C08(runner.Prop):
                     ctx.fail('compose/raises', f'{type(e).__name__}: {e}')
                     return
                 same_spec(ctx, 'transform_leaf_vs_compose', spec.transform(None, lambda leafspec: U_), comp)
+                if comp.namespace != (spec.namespace or U_.namespace) or comp.none_is_leaf != spec.none_is_leaf:
+                    ctx.fail('compose/attributes', f'namespace {comp.namespace!r} from {spec.namespace!r} and {U_.namespace!r}')
+                # the other operand order: a namespace recorded by either operand survives
+                try:
+                    comp2 = U_.compose(spec)
+                    if comp2.namespace != (U_.namespace or spec.namespace) or comp2.num_leaves != comp.num_leaves:
+                        ctx.fail('compose/attributes', f'reverse: namespace {comp2.namespace!r} from {U_.namespace!r} and {spec.namespace!r}')
+                except Exception as e:  # noqa: BLE001
+                    ctx.fail('compose/raises', f'reverse: {type(e).__name__}: {e}')
                 if comp.num_leaves != spec.num_leaves * U_.num_leaves:
                     ctx.fail('compose/num_leaves', f'{comp.num_leaves} != {spec.num_leaves}*{U_.num_leaves}')
                 composite = model.rebuild(ms, iter([gen.build(case['u']) for _ in range(ms.num_leaves())]))
